@@ -227,6 +227,19 @@ def canon(node, defs, keep=(), _depth=0, _seen=frozenset(), commutative_mult=Tru
         return "(" + (" %s " % type(node.op).__name__).join(sorted(c(v) for v in node.values)) + ")"
     if isinstance(node, ast.IfExp):
         return "(%s if %s else %s)" % (c(node.body), c(node.test), c(node.orelse))
+    if isinstance(node, (ast.ListComp, ast.GeneratorExp, ast.SetComp)) and len(node.generators) == 1 and isinstance(node.generators[0].target, ast.Name):
+        # comprehension variable renamed to a fixed placeholder: [f(x) for x in xs if p(x)] is the same for every x
+        g = node.generators[0]
+        var, ph = g.target.id, "‹c%d›" % sum(1 for k in keep if str(k).startswith("‹c"))
+        n2 = copy.deepcopy(node)
+        for n in ast.walk(n2):
+            if isinstance(n, ast.Name) and n.id == var:
+                n.id = ph
+        g2 = n2.generators[0]
+        c2 = lambda n: canon(n, defs, tuple(keep) + (ph,), _depth + 1, _seen, commutative_mult, lv)
+        conds = "".join(" if " + c2(x) for x in g2.ifs)
+        br = {"ListComp": "[%s]", "GeneratorExp": "(%s)", "SetComp": "{%s}"}[type(node).__name__]
+        return br % ("%s for %s in %s%s" % (c2(n2.elt), ph, c(g.iter), conds))
     if isinstance(node, ast.JoinedStr):
         return "fstr"
     return unparse(node)
